@@ -5,6 +5,12 @@ import os, sys
 sys.path.insert(0, os.path.dirname(__file__))
 from mkmutant import make
 
+# Changes that were tried and dropped because they do not break a stated property inside its quantifier (see DESIGN.md 8):
+#   c06-notify-keeps-dirty (only observable when Notify does not follow Parse), c05-offline-mac-online-stale (the converse
+#   of the stated implication), c07-icmp6-checksum-len16 (same one's-complement sum), c18-load-accepts-empty-clientid and
+#   c18-save-includes-offers (unreachable by single-byte/line corruption resp. filtered by the loader),
+#   c11-available-allows-router (the router is always tracked by the session), c12-reboot-other-subnet-acked (findOrCreate
+#   already replaces the lease on a subnet change).
 M = [
  # ---- C01
  ("c01-ip4-no-totallen-bound", "C01", [("layer_ip4.go", " && p.TotalLen() >= p.IHL() && n >= p.TotalLen() {", " && p.TotalLen() >= p.IHL() {")]),
@@ -27,11 +33,9 @@ M = [
  ("c04-purge-keeps-online-check", "C04", [("session.go", "if !e.Online && e.LastSeen.Before(deleteCutoff) {", "if e.LastSeen.Before(deleteCutoff) && e.Addr.IP.Is4() {")]),
  # ---- C05
  ("c05-unlink-off-by-one", "C05", [("mactable.go", "\t\t\tcopy(e.HostList[i:], e.HostList[i+1:])\n\t\t\te.HostList = e.HostList[:len(e.HostList)-1]", "\t\t\tcopy(e.HostList[i+1:], e.HostList[i+1:])\n\t\t\te.HostList = e.HostList[:len(e.HostList)-1]")]),
- ("c05-delete-keeps-mac-entry", "C05", [("hosttable.go", "if len(host.MACEntry.HostList) == 0 { // delete if last host", "if len(host.MACEntry.HostList) == 0 && host.Addr.IP.Is4() { // delete if last host")]),
- ("c05-offline-mac-online-stale", "C05", [("session.go", "\thost.MACEntry.Online = macOnline\n\thost.MACEntry.Row.Unlock()", "\tif macOnline {\n\t\thost.MACEntry.Online = macOnline\n\t}\n\thost.MACEntry.Row.Unlock()")]),
+ ("c04-delete-keeps-mac-entry", "C04", [("hosttable.go", "if len(host.MACEntry.HostList) == 0 { // delete if last host", "if len(host.MACEntry.HostList) == 0 && host.Addr.IP.Is4() { // delete if last host")]),
  ("c05-mactable-delete-wrong-index", "C05", [("mactable.go", "\tcopy(s.Table[pos:], s.Table[pos+1:])\n\ts.Table = s.Table[:len(s.Table)-1]", "\tcopy(s.Table[pos+1:], s.Table[pos+1:])\n\ts.Table = s.Table[:len(s.Table)-1]")]),
  # ---- C06
- ("c06-notify-keeps-dirty", "C06", [("session.go", "\tnotification := toNotification(frame.Host)\n\tframe.Host.dirty = false\n", "\tnotification := toNotification(frame.Host)\n\tframe.Host.dirty = !frame.Host.Online\n")]),
  ("c06-sibling-offline-silent", "C06", [("layer_frame.go", "\t\t\t\t\t\tv.Online = false\n\t\t\t\t\t\tv.dirty = true", "\t\t\t\t\t\tv.Online = false")]),
  ("c06-offline-after-online", "C06", [("session.go", "\t// notify previous IP4 is offline\n\tfor _, v := range offline {\n\t\th.makeOffline(v)\n\t}\n\n\t// lock row for update\n\tframe.Host.MACEntry.Row.Lock()\n\tnotification := toNotification(frame.Host)\n\tframe.Host.dirty = false\n\tframe.Host.MACEntry.Row.Unlock()\n\n\th.sendNotification(notification)", "\t// lock row for update\n\tframe.Host.MACEntry.Row.Lock()\n\tnotification := toNotification(frame.Host)\n\tframe.Host.dirty = false\n\tframe.Host.MACEntry.Row.Unlock()\n\n\th.sendNotification(notification)\n\n\t// notify previous IP4 is offline\n\tfor _, v := range offline {\n\t\th.makeOffline(v)\n\t}")]),
  # ---- C04 (continued)
@@ -40,20 +44,17 @@ M = [
  # ---- C07
  ("c07-ether-src-from-sender", "C07", [("layer_icmp.go", "ether = EncodeEther(ether, syscall.ETH_P_IPV6, h.NICInfo.HostAddr4.MAC, dstAddr.MAC)", "ether = EncodeEther(ether, syscall.ETH_P_IPV6, srcAddr.MAC, dstAddr.MAC)")]),
  ("c07-hoplimit-unicast-only", "C07", [("layer_icmp.go", "if dstAddr.IP.IsLinkLocalUnicast() || dstAddr.IP.IsLinkLocalMulticast() {\n\t\thopLimit = 255", "if dstAddr.IP.IsLinkLocalUnicast() {\n\t\thopLimit = 255")]),
- ("c07-icmp6-checksum-len16", "C07", [("layer_icmp.go", "binary.BigEndian.PutUint32(psh[32:36], uint32(len(b)))", "binary.BigEndian.PutUint16(psh[32:34], uint16(len(b)))")]),
  ("c07-icmp4-checksum-after-append", "C07", [("layer_icmp.go", "\tICMP(p).SetChecksum(Checksum(p))\n\tif ip4, err = ip4.AppendPayload(p, syscall.IPPROTO_ICMP); err != nil {\n\t\treturn err\n\t}", "\tif ip4, err = ip4.AppendPayload(p, syscall.IPPROTO_ICMP); err != nil {\n\t\treturn err\n\t}\n\tICMP(p).SetChecksum(Checksum(p))")]),
  ("c07-arp-probe-target-mac", "C07", [("session.go", "\tcopy(arp[18:18+6], target.MAC[:6])\n\tcopy(arp[24:24+4], target.IP.AsSlice())\n\t_, err = h.Conn.WriteTo", "\tcopy(arp[18:18+6], target.MAC[:6])\n\tcopy(arp[24:24+4], sender.IP.AsSlice())\n\t_, err = h.Conn.WriteTo")]),
  # ---- C11
  ("c11-select-ignores-concurrent-ack", "C11", [("handlers/dhcp4_spoofer/request.go", "\t\t\t(lease.State == StateDiscover && !h.available(lease, reqIP)) || // meanwhile acknowledged to another client or in use\n", "")]),
  ("c11-available-allows-broadcast", "C11", [("handlers/dhcp4_spoofer/lease.go", "ip == subnet.LAN.Addr() || ip == subnet.broadcast ||", "ip == subnet.LAN.Addr() ||")]),
- ("c11-available-allows-router", "C11", [("handlers/dhcp4_spoofer/lease.go", "ip == subnet.DefaultGW || ip == subnet.DHCPServer || ip == h.net1.DefaultGW {", "ip == subnet.DefaultGW || ip == subnet.DHCPServer {")]),
  ("c11-free-leases-early", "C11", [("handlers/dhcp4_spoofer/lease.go", "if lease.State != StateFree && lease.DHCPExpiry.Before(now) {", "if lease.State != StateFree && lease.DHCPExpiry.Before(now.Add(lease.subnet.Duration)) {")]),
  ("c11-available-skips-same-mac", "C11", [("handlers/dhcp4_spoofer/lease.go", "if v == lease || bytes.Equal(v.ClientID, lease.ClientID) {", "if v == lease || bytes.Equal(v.ClientID, lease.ClientID) || v.subnet != lease.subnet {")]),
  # ---- C12
  ("c12-select-stale-xid-acked", "C12", [("handlers/dhcp4_spoofer/request.go", "(lease.State == StateDiscover && (!bytes.Equal(lease.XID, p.XId()) || lease.IPOffer != reqIP)) ||", "(lease.State == StateDiscover && lease.IPOffer != reqIP) ||")]),
  ("c12-renew-expired-acked", "C12", [("handlers/dhcp4_spoofer/request.go", "\t\t\tlease.Addr.IP != reqIP || !bytes.Equal(lease.Addr.MAC, p.CHAddr()) ||\n\t\t\tlease.DHCPExpiry.Before(time.Now()) {", "\t\t\tlease.Addr.IP != reqIP || !bytes.Equal(lease.Addr.MAC, p.CHAddr()) {")]),
  ("c12-capture-keeps-old-subnet", "C12", [("handlers/dhcp4_spoofer/lease.go", "\t\tif lease.subnet.LAN == subnet.LAN &&\n\t\t\tbytes.Equal(lease.Addr.MAC, mac) {", "\t\tif (lease.subnet.LAN == subnet.LAN || lease.State == StateAllocated) &&\n\t\t\tbytes.Equal(lease.Addr.MAC, mac) {")]),
- ("c12-reboot-other-subnet-acked", "C12", [("handlers/dhcp4_spoofer/request.go", "\t\t\tlease.Addr.IP != reqIP || !bytes.Equal(lease.Addr.MAC, p.CHAddr()) ||\n\t\t\t!subnet.LAN.Contains(lease.Addr.IP) {", "\t\t\tlease.Addr.IP != reqIP || !bytes.Equal(lease.Addr.MAC, p.CHAddr()) {")]),
  # ---- C15
  ("c15-single-fold", "C15", [("layer_ip4.go", "\ts = s>>16 + s&0xffff\n\ts = s + s>>16\n\treturn ^uint16(s)", "\ts = s>>16 + s&0xffff\n\treturn ^uint16(s)")]),
  ("c15-odd-tail-inverted", "C15", [("layer_ip4.go", "if csumcv&1 == 0 {\n\t\ts += uint32(b[csumcv])", "if csumcv&1 == 1 {\n\t\ts += uint32(b[csumcv])")]),
@@ -63,9 +64,7 @@ M = [
  ("c16-alloc-on-igmp", "C16", [("layer_frame.go", "\tcase syscall.IPPROTO_IGMP:\n\t\tframe.PayloadID = PayloadIGMP", "\tcase syscall.IPPROTO_IGMP:\n\t\tframe.DstAddr.MAC = CopyMAC(frame.DstAddr.MAC)\n\t\tframe.PayloadID = PayloadIGMP")]),
  # ---- C18
  ("c18-load-skips-subnet-check", "C18", [("handlers/dhcp4_spoofer/subnet_lease.go", "if !v.Addr.IP.IsValid() || !net1.LAN.Contains(v.Addr.IP) {", "if !v.Addr.IP.IsValid() {")]),
- ("c18-load-accepts-empty-clientid", "C18", [("handlers/dhcp4_spoofer/subnet_lease.go", "if v.ClientID == nil || len(v.ClientID) == 0 {", "if v.ClientID == nil {")]),
  ("c18-ack-not-saved-on-renew", "C18", [("handlers/dhcp4_spoofer/request.go", "\th.saveConfig(h.filename)\n\n\t// Update session with DHCP details - almost always a new host IP will be setup", "\tif operation == selecting {\n\t\th.saveConfig(h.filename)\n\t}\n\n\t// Update session with DHCP details - almost always a new host IP will be setup")]),
- ("c18-save-includes-offers", "C18", [("handlers/dhcp4_spoofer/subnet_lease.go", "} else if v.State == StateDiscover && v.Addr.IP.IsValid() && v.DHCPExpiry.After(time.Now()) {", "} else if v.State == StateDiscover {")]),
  ("c18-decline-not-saved", "C18", [("handlers/dhcp4_spoofer/declinerelease.go", "\tlease.IPOffer = netip.Addr{}\n\th.saveConfig(h.filename) // the binding must not come back after a restart\n", "\tlease.IPOffer = netip.Addr{}\n")]),
  # ---- C20
  ("c20-hex-upper-digit", "C20", [("fastlog/logging.go", "\tif x := value & 0x0f; x < 10 {\n\t\tl.appendByte(x + '0')\n\t} else {\n\t\tl.appendByte(x%10 + 'a')", "\tif x := value & 0x0f; x <= 10 {\n\t\tl.appendByte(x + '0')\n\t} else {\n\t\tl.appendByte(x%10 + 'a')")]),
